@@ -35,7 +35,11 @@ impl BlobWriter {
         Ok(())
     }
 
-    pub(crate) fn write_record(&mut self, record: Record) -> AnyResult<()> {
+    pub(crate) fn write_record(&mut self, mut record: Record) -> AnyResult<()> {
+        if record.header.blob_offset() != self.written {
+            // storage locates record by the offset stored in its header: keep it equal to the real position
+            record.header = record.header.with_blob_offset(self.written)?;
+        }
         bincode::serialize_into(&mut self.file, &record.header).with_context(|| "write header")?;
         let mut written = 0;
         written += bincode::serialized_size(&record.header)?;
